@@ -53,7 +53,7 @@ def case_term(c):
             counts[e["side"]] += 1
             outs[e["side"]].append("(%d, %s)" % (e["t"], dgram_term(e.get("recs") or [])))
         elif e["ev"] == "deliver":
-            moves.append("Deliver %s %d%%nat %d" % (cbool(side_of[e["idx"]] == "client"), kidx[e["idx"]], e["t"]))
+            moves.append("Deliver %s %d %d" % (cbool(side_of[e["idx"]] == "client"), kidx[e["idx"]], e["t"]))
     ce = c["cdone"] and c["cerr"] == "ok"
     se = c["sdone"] and c["serr"] == "ok"
     return "(%s, %s, %d, %s, %s, %s, %s)" % (cfg_term(c), clist(moves), c["tdone"], clist(outs["client"]),
